@@ -93,7 +93,13 @@ def build_classes(spec, faults):
     classes = {"host": Host}
     if spec.get("sub"):
         sns = namespace([], spec["sub"]["props"], None)
-        Sub = type("Sub", (Host,), sns)
+        if spec["sub"].get("via_mixin") and spec["sub"]["kind"] == "spec":
+            # the derived values are declared on a plain class in the middle of the hierarchy; the decorated class below
+            # it has to know about them all the same
+            Mid = type("Mid", (Host,), sns)
+            Sub = type("Sub", (Mid,), {"__module__": "specsim.generated", "__annotations__": {}})
+        else:
+            Sub = type("Sub", (Host,), sns)
         Sub = spec_class(bootstrap=spec.get("eager", False))(Sub) if spec["sub"]["kind"] == "spec" else Sub
         classes["sub"] = Sub
     return classes
@@ -164,6 +170,8 @@ class C11(Check):
             spec["sub"] = {"kind": src.choice(["spec", "spec", "plain"]),
                            "props": [{"name": "s0", "cache": src.chance(0.7), "invalidated_by": deps, "reads": list(deps),
                                       "overridable": True, "style": src.choice(["ctor", "ctor", "setter", "deleter"])}]}
+            if spec["sub"]["kind"] == "spec" and src.chance(0.4):
+                spec["sub"]["via_mixin"] = True
         return spec
 
     # -- reference evaluation -------------------------------------------------------------------
@@ -365,7 +373,7 @@ class C11(Check):
                 if out.value != want:
                     declared_in = "host"
                     if spec.get("sub") and any(q["name"] == op["name"] for q in spec["sub"]["props"]):
-                        declared_in = spec["sub"]["kind"] + "_subclass"
+                        declared_in = "plain_mid_class" if spec["sub"].get("via_mixin") else spec["sub"]["kind"] + "_subclass"
                     ctx.violate({"invariant": "read_equals_recomputation", "entry": "read", "declared_in": declared_in},
                                 {"op": op, "got": strip_addr(repr(out.value))[:200], "want": strip_addr(repr(want))[:200]}, idx)
             return
@@ -436,7 +444,7 @@ class C11(Check):
                 chain = any(r in _prop_names(spec, inst) for r in p["reads"])
                 declared_in = "host"
                 if spec.get("sub") and any(q["name"] == p["name"] for q in spec["sub"]["props"]):
-                    declared_in = spec["sub"]["kind"] + "_subclass"
+                    declared_in = "plain_mid_class" if spec["sub"].get("via_mixin") else spec["sub"]["kind"] + "_subclass"
                 ctx.violate(dict(sig, invariant="read_equals_recomputation", prop_cached=p["cache"], through_property=chain,
                                  star="*" in (p["invalidated_by"] or []), declared_in=declared_in),
                             {"op": op, "prop": p["name"], "got": strip_addr(repr(got))[:200], "want": strip_addr(repr(want))[:200],
